@@ -8,6 +8,7 @@ CONSTANTS
   BugDtorOneSided = FALSE
   BugMoveNoReset = FALSE
   BugListMoveCtor = TRUE
+  WithIter = FALSE
 VIEW RView
 INVARIANTS TypeOK RingOK NoDeadRef NoUAF NoStaleHead WalkAgree Refines
 CHECK_DEADLOCK FALSE
